@@ -147,6 +147,7 @@ static std::string describe(int ty, const std::vector<int> &seq) {
 // consumer that is not a coroutine: one call_fn_future_awaiter, re-used for every pop it issues
 template <typename T>
 struct CbConsumer {
+    cocls::queue<T> *q = nullptr;  // the completion function looks at the queue it is served from (re-entrance)
     std::vector<int> st, val;  // per completed pop, in completion order
     cocls::suspend_point<void> done(cocls::future<T> &f) noexcept {
         int s = 9, v = 0;
@@ -159,6 +160,7 @@ struct CbConsumer {
             s = 3;
         } catch (...) {
         }
+        if (q) (void)q->size();  // must not dead-lock: completions run outside the queue's lock
         seqx::NoCount nc;
         st.push_back(s);
         val.push_back(v);
@@ -180,6 +182,7 @@ static void run_case(seqx::Runner &R, int ty, const std::vector<int> &seq) {
         {
             seqx::NoCount nc;  // the consumer is harness equipment
             cbc.reset(new CbConsumer<T>());
+            cbc->q = q.get();
             cbaw.reset(new cocls::call_fn_future_awaiter<&CbConsumer<T>::done>(*cbc));
         }
         std::vector<int> cb_index;  // model pop id -> index in the consumer's completion log (-1 not completed when issued)
@@ -267,7 +270,10 @@ static void run_case(seqx::Runner &R, int ty, const std::vector<int> &seq) {
                     for (size_t k = 0; k < pops.size(); k++)
                         if (pops[k] && m.pop_state[k] == 4) pops[k].reset();
                     break;
-                default: q.reset(); break;
+                default:
+                    cbc->q = nullptr;  // completions caused by the destruction must not touch the dying queue
+                    q.reset();
+                    break;
             }
             if (ok) ok = compare(i);
             uint64_t key = seqx::mix((uint64_t)ty, m.items.size());
@@ -275,6 +281,7 @@ static void run_case(seqx::Runner &R, int ty, const std::vector<int> &seq) {
             for (int s : m.pop_state) key = seqx::mix(key, (uint64_t)s);
             R.state(key);
         }
+        cbc->q = nullptr;
         q.reset();
         {
             size_t issued = 0;
